@@ -3,6 +3,7 @@ package props
 import (
 	"fmt"
 	"math/big"
+	"sort"
 	"testing"
 
 	vestingtypes "github.com/chain4energy/c4e-chain/x/cfevesting/types"
@@ -166,6 +167,22 @@ func TestC07(t *testing.T) {
 				}
 				if len(ds) == 0 {
 					continue
+				}
+				// the message lists denominations in any order and may name ones the sender does
+				// not hold (those select nothing)
+				switch rapid.IntRange(0, 3).Draw(t, l+"_notheld") {
+				case 0:
+					ds = append(ds, "aaacoin")
+					classes["denom_not_held_listed"] = true
+				case 1:
+					ds = append(ds, "zzzcoin")
+					classes["denom_not_held_listed"] = true
+				}
+				if len(ds) > 1 {
+					ds = rapid.Permutation(ds).Draw(t, l+"_order")
+					if !sort.StringsAreSorted(ds) {
+						classes["denoms_listed_unsorted"] = true
+					}
 				}
 				msg = &vestingtypes.MsgMoveAvailableVestingByDenoms{FromAddress: from.String(), ToAddress: to.String(), Denoms: ds}
 				want = sel
